@@ -13,6 +13,7 @@ import (
 	"github.com/q191201771/lal/pkg/gb28181"
 	"github.com/q191201771/lal/pkg/rtmp"
 	"github.com/q191201771/lal/pkg/rtsp"
+	"github.com/q191201771/naza/pkg/defertaskthread"
 	"github.com/q191201771/naza/pkg/taskpool"
 )
 
@@ -300,3 +301,25 @@ func VerifRtspPubSession(sm *ServerManager, stream string) *rtsp.PubSession {
 
 // VerifApiHandler is the HTTP-API route table (built by the generated VerifMux) for this server.
 func VerifApiHandler(sm *ServerManager) http.Handler { return NewHttpApiServer("", sm).VerifMux() }
+
+// ---- the deferred HLS cleanup ------------------------------------------------------------------------------------
+
+var verifDeferFns sync.Map // *ServerManager -> func(deferMs int, f func())
+
+// VerifSetDefer makes sm hand its deferred tasks (the HLS directory cleanup that CleanupHlsIfNeeded
+// schedules) to fn instead of naza's sleeping goroutine: f is the task with its parameters bound.
+func VerifSetDefer(sm *ServerManager, fn func(deferMs int, f func())) {
+	if fn == nil {
+		verifDeferFns.Delete(sm)
+		return
+	}
+	verifDeferFns.Store(sm, fn)
+}
+
+func (sm *ServerManager) verifDeferGo(deferMs int, task defertaskthread.TaskFn, param ...interface{}) {
+	if v, ok := verifDeferFns.Load(sm); ok {
+		v.(func(int, func()))(deferMs, func() { task(param...) })
+		return
+	}
+	defertaskthread.Go(deferMs, task, param...)
+}
